@@ -1061,6 +1061,19 @@ func (e *cenv) call(x *cCall) val {
 			as = append(as, v)
 		}
 		return g.dynApp(sig, f, as)
+	case "raw":
+		// raw(b, j): cell j (absolute index) of the backing array of slice b
+		b := e.tr(x.args[0])
+		j := e.tr(x.args[1])
+		u, ok := b.typ.Underlying().(*types.Slice)
+		if !ok {
+			e.fail("raw needs a slice")
+		}
+		if _, isS := isStructVal(u.Elem()); isS {
+			e.fail("raw: struct elements not supported")
+		}
+		k := g.registerElemKey(u.Elem())
+		return e.noteLoad(val{fmt.Sprintf("(select (select %s (s_arr %s)) %s)", g.read(e.st, k), b.t, j.t), u.Elem(), g.sortOf(u.Elem())})
 	case "allocated":
 		// the object exists in the current state (its reference is below the
 		// allocation watermark)
